@@ -22,10 +22,66 @@ const (
 type failMode int
 
 const (
-	failNone      failMode = iota
-	failGQL                // response carries "errors" next to the data
-	failTransport          // Load returns an error (dependants are skipped by the loader)
+	failNone       failMode = iota
+	failGQL                 // 200, response carries "errors" next to the data
+	failTransport           // Load returns an error (dependants are skipped by the loader)
+	failStatusHTML          // 502 with a body that is not JSON (a proxy in front of the subgraph)
+	failStatusNull          // 503 with {"data":null} and no errors
+	failStatusGQL           // 500 with an errors array and data:null
+	failNullData            // 200 with {"data":null} and no errors
+	failGQLNull             // 200 with an errors array and data:null
+	failEmpty               // 200 with an empty body
 )
+
+// faultModes: every way a fake subgraph can fail (layer 2, kinds errors / faults).
+var faultModes = []failMode{failGQL, failTransport, failStatusHTML, failStatusNull, failStatusGQL, failNullData, failGQLNull, failEmpty}
+
+func (m failMode) String() string {
+	switch m {
+	case failNone:
+		return "ok"
+	case failGQL:
+		return "gql"
+	case failTransport:
+		return "net"
+	case failStatusHTML:
+		return "502html"
+	case failStatusNull:
+		return "503null"
+	case failStatusGQL:
+		return "500gql"
+	case failNullData:
+		return "nulldata"
+	case failGQLNull:
+		return "gqlnull"
+	case failEmpty:
+		return "empty"
+	}
+	return "?"
+}
+
+// deliversNothing: the fetch merges no data, so whoever reads its value reads null.
+func (m failMode) deliversNothing() bool { return m != failNone && m != failGQL }
+
+// infoMode: which fetches of the plan carry a FetchInfo. The planner attaches one to every fetch
+// unless plan.Configuration.DisableIncludeInfo is set (then to none); hand-built plans may mix.
+type infoMode int
+
+const (
+	infoAll infoMode = iota
+	infoNone
+	infoMixed // per fetch, decided by (fetch id, InfoSalt)
+)
+
+func (m infoMode) String() string {
+	switch m {
+	case infoNone:
+		return "none"
+	case infoMixed:
+		return "mixed"
+	}
+	return "all"
+}
 
 type fetchSpec struct {
 	ID     int
@@ -40,9 +96,84 @@ type fetchSpec struct {
 }
 
 type planSpec struct {
-	Kind    string // plain | nested | entity | dup | errors
-	Fetches []fetchSpec
-	byID    map[int]*fetchSpec
+	Kind     string // plain | nested | entity | dup | errors | faults
+	Fetches  []fetchSpec
+	Info     infoMode
+	InfoSalt uint64
+	byID     map[int]*fetchSpec
+}
+
+// withInfo: the same plan (shared, read-only fetch list) under another FetchInfo mode.
+func (p *planSpec) withInfo(m infoMode, salt uint64) *planSpec {
+	q := *p
+	q.Info, q.InfoSalt = m, 0
+	if m == infoMixed {
+		q.InfoSalt = salt
+	}
+	return &q
+}
+
+// hasInfo: does the fetch carry a FetchInfo.
+func (p *planSpec) hasInfo(id int) bool {
+	switch p.Info {
+	case infoNone:
+		return false
+	case infoMixed:
+		x := (uint64(id)+1)*0x9E3779B97F4A7C15 ^ p.InfoSalt*0xC2B2AE3D27D4EB4F
+		x ^= x >> 29
+		x *= 0xBF58476D1CE4E5B9
+		x ^= x >> 32
+		return x&1 == 0
+	}
+	return true
+}
+
+func (p *planSpec) withoutInfo() []int {
+	var out []int
+	for _, f := range p.Fetches {
+		if !p.hasInfo(f.ID) {
+			out = append(out, f.ID)
+		}
+	}
+	sort.Ints(out)
+	return out
+}
+
+// removedFanout: the largest number of fetches that declare a dependency on one fetch that
+// de-duplication removes (a copy that is not the first of its duplicate class in raw order).
+// All of them have to be rewired to the survivor.
+func (p *planSpec) removedFanout() int {
+	n := map[int]int{}
+	for _, f := range p.Fetches {
+		for _, d := range uniqInts(f.Deps) {
+			if p.rep(d) != d {
+				n[d]++
+			}
+		}
+	}
+	best := 0
+	for _, v := range n {
+		if v > best {
+			best = v
+		}
+	}
+	return best
+}
+
+// faultSet: sorted distinct fault modes of the plan.
+func (p *planSpec) faultSet() string {
+	seen := map[string]bool{}
+	for _, f := range p.Fetches {
+		if f.Fail != failNone {
+			seen[f.Fail.String()] = true
+		}
+	}
+	out := make([]string, 0, len(seen))
+	for k := range seen {
+		out = append(out, k)
+	}
+	sort.Strings(out)
+	return strings.Join(out, "+")
 }
 
 func (p *planSpec) index() {
@@ -53,6 +184,9 @@ func (p *planSpec) index() {
 }
 
 func (p *planSpec) get(id int) *fetchSpec { return p.byID[id] }
+
+// faulty: plan kinds in which fetches fail.
+func (p *planSpec) faulty() bool { return p.Kind == "errors" || p.Kind == "faults" }
 
 // class: the id whose request content / response field this fetch shares (itself unless duplicate).
 func (p *planSpec) class(id int) int {
@@ -181,14 +315,17 @@ func (p *planSpec) String() string {
 		if f.MergeM {
 			b.WriteString("M")
 		}
-		switch f.Fail {
-		case failGQL:
-			b.WriteString("!gql")
-		case failTransport:
-			b.WriteString("!net")
+		if f.Fail != failNone {
+			b.WriteString("!" + f.Fail.String())
 		}
 	}
 	b.WriteString("]")
+	switch p.Info {
+	case infoNone:
+		b.WriteString(" fetchinfo=none")
+	case infoMixed:
+		fmt.Fprintf(&b, " fetchinfo=all-but%v", p.withoutInfo())
+	}
 	return b.String()
 }
 
@@ -201,7 +338,11 @@ func (p *planSpec) canon() string {
 		parts = append(parts, fmt.Sprintf("%d:%v:%d:%d:%d:%d:%v:%d", f.ID, d, f.Flavor, f.DS, f.DupOf, f.Parent, f.MergeM, f.Fail))
 	}
 	sort.Strings(parts)
-	return p.Kind + "|" + strings.Join(parts, ";")
+	info := ""
+	if p.Info != infoAll {
+		info = fmt.Sprintf("|info=%s%v", p.Info, p.withoutInfo())
+	}
+	return p.Kind + "|" + strings.Join(parts, ";") + info
 }
 
 func containsInt(s []int, x int) bool {
@@ -527,11 +668,145 @@ func randomErrors(rng *rand.Rand, nMin, nMax int) *planSpec {
 		case 1:
 			p.Fetches[i].Fail = failTransport
 			any = true
+		case 2:
+			if rng.IntN(2) == 0 {
+				p.Fetches[i].Fail = faultModes[rng.IntN(len(faultModes))]
+				any = true
+			}
 		}
 	}
 	if !any {
 		p.Fetches[rng.IntN(len(p.Fetches))].Fail = failGQL
 	}
+	return p
+}
+
+// randomFaults: a small plan around ONE group of 2..4 mutually independent fetches that fail in
+// pairwise different ways (at least two of them), optionally behind a healthy root fetch and
+// optionally followed by a fetch that reads some members of the group. Small enough for every
+// completion order of the group to be executed.
+func randomFaults(rng *rand.Rand) *planSpec {
+	k := 2 + rng.IntN(3)
+	pre := rng.IntN(3) == 0
+	post := rng.IntN(3) == 0
+	n := k
+	if pre {
+		n++
+	}
+	if post {
+		n++
+	}
+	ids := randomIDs(rng, n)
+	next := 0
+	take := func() int { next++; return ids[next-1] }
+	var fetches []fetchSpec
+	preID := -1
+	if pre {
+		preID = take()
+		fetches = append(fetches, fetchSpec{ID: preID, DupOf: -1, Parent: -1})
+	}
+	modes := append([]failMode(nil), faultModes...)
+	rng.Shuffle(len(modes), func(a, b int) { modes[a], modes[b] = modes[b], modes[a] })
+	var group []int
+	for i := 0; i < k; i++ {
+		f := fetchSpec{ID: take(), DupOf: -1, Parent: -1}
+		if pre {
+			f.Deps = []int{preID}
+		}
+		switch {
+		case i < 2:
+			f.Fail = modes[i]
+		case rng.IntN(3) != 0:
+			f.Fail = modes[i]
+		}
+		group = append(group, f.ID)
+		fetches = append(fetches, f)
+	}
+	if post {
+		f := fetchSpec{ID: take(), DupOf: -1, Parent: -1}
+		for _, g := range group {
+			if rng.IntN(2) == 0 {
+				f.Deps = append(f.Deps, g)
+			}
+		}
+		if len(f.Deps) == 0 {
+			f.Deps = []int{group[rng.IntN(len(group))]}
+		}
+		fetches = append(fetches, f)
+	}
+	rng.Shuffle(len(fetches), func(a, b int) { fetches[a], fetches[b] = fetches[b], fetches[a] })
+	p := &planSpec{Kind: "faults", Fetches: fetches}
+	p.index()
+	return p
+}
+
+// randomDupFan: directed shape for the rewiring done by de-duplication: a fetch with 1..2 exact
+// duplicates, behind a dependency chain of length 0..3, and 2..5 dependants that each declare
+// ONE copy (any of them) as their dependency — whichever copies are removed, all dependants of
+// them have to follow the survivor. Raw order and ids are random, so the survivor (first copy in
+// raw order) varies.
+func randomDupFan(rng *rand.Rand) *planSpec {
+	type node struct {
+		deps  []int
+		dupOf int
+	}
+	var nodes []node
+	add := func(dupOf int, deps ...int) int {
+		nodes = append(nodes, node{deps: append([]int(nil), deps...), dupOf: dupOf})
+		return len(nodes) - 1
+	}
+	last := -1
+	for i, chain := 0, rng.IntN(4); i < chain; i++ {
+		if last < 0 {
+			last = add(-1)
+		} else {
+			last = add(-1, last)
+		}
+	}
+	var odeps []int
+	if last >= 0 {
+		odeps = []int{last}
+	}
+	orig := add(-1, odeps...)
+	copies := []int{orig}
+	for i, c := 0, 1+rng.IntN(2); i < c; i++ {
+		copies = append(copies, add(orig, odeps...))
+	}
+	dependants := 2 + rng.IntN(4)
+	var depNodes []int
+	for i := 0; i < dependants; i++ {
+		d := []int{copies[rng.IntN(len(copies))]}
+		if last >= 0 && rng.IntN(4) == 0 {
+			d = append(d, last)
+		}
+		if len(depNodes) > 0 && rng.IntN(5) == 0 {
+			d = append(d, depNodes[rng.IntN(len(depNodes))])
+		}
+		depNodes = append(depNodes, add(-1, d...))
+	}
+	if rng.IntN(3) == 0 { // an unrelated fetch or two
+		add(-1)
+		if rng.IntN(2) == 0 {
+			add(-1, len(nodes)-1)
+		}
+	}
+	ids := randomIDs(rng, len(nodes))
+	order := rng.Perm(len(nodes))
+	if rng.IntN(3) == 0 {
+		sort.Ints(order) // planner-like raw order: topological, the original before its copies
+	}
+	p := &planSpec{Kind: "dup"}
+	for _, t := range order {
+		f := fetchSpec{ID: ids[t], DupOf: -1, Parent: -1}
+		if nodes[t].dupOf >= 0 {
+			f.DupOf = ids[nodes[t].dupOf]
+		}
+		for _, d := range nodes[t].deps {
+			f.Deps = append(f.Deps, ids[d])
+		}
+		p.Fetches = append(p.Fetches, f)
+	}
+	p.index()
 	return p
 }
 
